@@ -27,6 +27,10 @@ var libPure = map[string]bool{
 	"fmt.Errorf": true, "fmt.Sprintf": true, "fmt.Sprint": true, "fmt.Sprintln": true, "errors.New": true,
 	"github.com/tdewolff/parse/v2/strconv.ParseFloat": true, "github.com/tdewolff/parse/v2/strconv.ParseInt": true,
 	"github.com/tdewolff/parse/v2/strconv.ParseUint": true,
+	"image/jpeg.Encode": true, "image/png.Encode": true,
+	"(*github.com/tdewolff/parse/v2/css.Parser).Next": true, "(*github.com/tdewolff/parse/v2/css.Parser).Values": true,
+	"github.com/tdewolff/parse/v2/css.NewParser": true, "github.com/tdewolff/parse/v2.NewInputBytes": true, "github.com/tdewolff/parse/v2.NewInput": true,
+	"(*strings.Builder).Write": true,
 }
 
 func (x *Exec) callLibrary(s *State, fn *types.Func, recv *Term, args []*Term, call *ast.CallExpr) ([]*Term, bool) {
@@ -136,6 +140,22 @@ func (x *Exec) callLibrary(s *State, fn *types.Func, recv *Term, args []*Term, c
 			s.assume(Cmp("<=", IntLit(0), v[0]))
 		}
 		return v, true
+	case "(*github.com/tdewolff/parse/v2/css.Parser).Next", "(*github.com/tdewolff/parse/v2/css.Parser).Values",
+		"github.com/tdewolff/parse/v2/css.NewParser", "github.com/tdewolff/parse/v2.NewInputBytes", "github.com/tdewolff/parse/v2.NewInput":
+		libUsed[full] = "CSS tokenizer: a stateful reader over its own input buffer; results are arbitrary (no determinism assumed), nothing of the verified state is written (the input bytes handed to NewInputBytes are treated as owned by the parser)"
+		return x.havocResults(s, call), true
+	case "(*strings.Builder).Write":
+		libUsed[full] = "returns (n, err) with n >= 0; writes nothing reachable from the verified state"
+		s.log = append(s.log, "?")
+		v := x.havocResults(s, call)
+		if len(v) >= 1 && v[0].S == SInt {
+			s.assume(Cmp("<=", IntLit(0), v[0]))
+		}
+		return v, true
+	case "image/jpeg.Encode", "image/png.Encode":
+		libUsed[full] = "reads the image (At/Bounds/ColorModel are pure queries) and writes only through its io.Writer argument, which like fmt.Fprintf reaches nothing of the verified state; returns an arbitrary error"
+		s.log = append(s.log, "?")
+		return x.havocResults(s, call), true
 	case "fmt.Errorf", "errors.New":
 		libUsed[full] = "returns a non-nil error"
 		e := x.freshVar("err", IfaceSort)
